@@ -291,4 +291,48 @@ theorem stale_last_latency_witness :
       [.plan 4 ⟨false, false, false, false, false, false⟩ 30000 none, .timeout 30000,
        .resched (true, 0) 30000]).map (·.eventCounter) = some 2 := by decide
 
+/-! ### runtime switchable configuration sets -/
+
+theorem setFeature_eq (configs : List Cfg) (cur : Nat) (f : Cfg → Bool) (h : cur < configs.length) :
+    setFeature configs cur f = f configs[cur] := by
+  unfold setFeature
+  by_cases ha : configs.all f = true
+  · rw [if_pos ha]
+    exact ((List.all_eq_true.mp ha) _ (List.getElem_mem h)).symm
+  · rw [if_neg ha]
+    by_cases hn : configs.all (fun c => !f c) = true
+    · rw [if_pos hn]
+      have := (List.all_eq_true.mp hn) _ (List.getElem_mem h)
+      cases hf : f configs[cur] with
+      | false => rfl
+      | true => rw [hf] at this; cases this
+    · rw [if_neg hn, List.getElem?_eq_getElem h]
+
+/-- **the set behaves as the currently selected configuration**: every feature query of
+    `peripheral_latency_configuration_set< Configurations... >` answers what the selected
+    configuration (`change_peripheral_latency< NewConfig >()`) declares — in particular
+    `listen_always` when `peripheral_latency_ignored` is selected in a mixed set. -/
+theorem set_behaves_as_selected (configs : List Cfg) (cur : Nat) (h : cur < configs.length) :
+    setCfg configs cur = configs[cur] := by
+  unfold setCfg
+  simp only [setFeature_eq configs cur _ h]
+
+/-- so a set listens at the next event whenever a listen condition of the *selected* configuration held -/
+theorem set_listens_as_selected (configs : List Cfg) (cur : Nat) (h : cur < configs.length)
+    (s s' : St) (latency : Nat) (e : Events) (interval : Nat) (pending : Option Nat)
+    (hc : conditionHeld configs[cur] e)
+    (hp : planNextSet configs cur s latency e interval pending = some s') :
+    s'.eventCounter = (s.eventCounter + 1) % 65536 ∧ s'.channelIndex = (s.channelIndex + 1) % 37 := by
+  unfold planNextSet at hp
+  rw [set_behaves_as_selected configs cur h, listen_next_if_condition _ s latency e pending hc] at hp
+  simp only [Option.bind_eq_some_iff] at hp
+  obtain ⟨t, _, hs⟩ := hp
+  obtain ⟨h1, h2, _⟩ := setLastLatency_some _ _ _ _ hs
+  exact ⟨h2, h1⟩
+
+/-- non-vacuity: the documented set< peripheral_latency_ignored, peripheral_latency_strict_plus > with
+    `peripheral_latency_ignored` selected, latency 5, an empty event: the very next event is planned -/
+example : planNextSet [⟨false, false, false, false, false, true⟩, ⟨false, false, true, false, true, false⟩] 0
+    ⟨0, 0, 0, 1⟩ 5 ⟨false, false, false, false, false, false⟩ 30000 none = some ⟨1, 1, 30000, 1⟩ := by decide
+
 end BluetoeModel.ConnEvents
